@@ -13,14 +13,14 @@ suite=$(cargo test --workspace --no-fail-fast --offline 2>&1 | grep -E "^test .*
 demo_with="n/a"; demo_without="n/a"
 if [ -f "$OUT/demo_test.rs" ]; then
   cp "$OUT/demo_test.rs" tests/demo_test.rs
-  cargo test --offline --features testlib,verif_hooks --test demo_test >/tmp/seed/$ID.with.log 2>&1; demo_with=$?
+  cargo test --offline --features testlib,verif_hooks --test demo_test >/tmp/seedlog-$ID.with.log 2>&1; demo_with=$?
   git apply -R "$OUT/patch.diff"
-  cargo test --offline --features testlib,verif_hooks --test demo_test >/tmp/seed/$ID.without.log 2>&1; demo_without=$?
+  cargo test --offline --features testlib,verif_hooks --test demo_test >/tmp/seedlog-$ID.without.log 2>&1; demo_without=$?
   rm -f tests/demo_test.rs
 elif [ -f "$OUT/demo.sh" ]; then
-  (cd "$OUT" && WT="$WT" bash demo.sh) >/tmp/seed/$ID.with.log 2>&1; demo_with=$?
+  (cd "$OUT" && WT="$WT" bash demo.sh) >/tmp/seedlog-$ID.with.log 2>&1; demo_with=$?
   git apply -R "$OUT/patch.diff"
-  (cd "$OUT" && WT="$WT" bash demo.sh) >/tmp/seed/$ID.without.log 2>&1; demo_without=$?
+  (cd "$OUT" && WT="$WT" bash demo.sh) >/tmp/seedlog-$ID.without.log 2>&1; demo_without=$?
 fi
 git checkout -q -- . 
 echo "$ID files=[$touched] suite_failures=[${suite}] demo_with_patch_rc=$demo_with demo_without_patch_rc=$demo_without"
